@@ -119,6 +119,7 @@ func runC10(cases string, res *Result) {
 	// last: a rendering that does not end leaves a goroutine behind; the results so far are complete
 	c10ParentInsideConstructs(res)
 	c10BlocksUnderLiteralConditions(res)
+	c10ParentNameSpellings(res)
 	c10IncludedChains(res)
 }
 
@@ -285,6 +286,49 @@ func c10BlocksUnderLiteralConditions(res *Result) {
 				res.add(Finding{Kind: "oracle", Where: "c10-literal-conditions", Case: Case{"stream": "c10-literal-conditions", "shape": shape, "literal": l.lit},
 					Expected: vm + " / " + vl + " (the condition written as a variable of that value)", Observed: lm + " / " + ll,
 					Detail: "a block inside a condition: with the condition written as the literal " + l.lit + " the chain resolves differently than with a variable that holds that value"})
+			}
+		}
+	}
+}
+
+// c10ParentNameSpellings: the parent named by an expression -- concatenations written with and without blanks, in
+// either kind of quote, conditionals, item access, a filtered literal -- is the template that expression names.
+func c10ParentNameSpellings(res *Result) {
+	exprs := []string{
+		"'layouts/blue.twig'", "\"layouts/blue.twig\"", "'layouts/' ~ theme ~ '.twig'", "'layouts/'~theme~'.twig'", "\"layouts/\"~theme~\".twig\"", "'layouts/blue' ~ '.twig'", "'layouts/blue'~'.twig'",
+		"\"layouts/blue\"~\".twig\"", "('layouts/'~theme)~'.twig'", "'layouts/'~(theme~'.twig')", "theme == 'blue' ? 'layouts/blue.twig' : 'nothere'", "theme=='blue'?'layouts/blue.twig':'nothere'",
+		"names[0]", "names|first", "'LAYOUTS/BLUE.TWIG'|lower", "full", "'layouts/' ~ 'blue' ~ '.twig'", "'layouts/'~'blue'~'.twig'",
+	}
+	for _, tag := range []struct{ name, tpl, want string }{
+		{"extends", "{% extends $ %}{% block a %}A1({{ parent() }}){% endblock %}", "<A1(A0)>"},
+		{"include", "[{% include $ %}]", "[<A0>]"},
+		{"include-with", "[{% include $ with {'q': 1} %}]", "[<A0>]"},
+		{"import", "{% import $ as L %}[{{ L.m() }}]", "[M]"},
+		// (the from tag takes a literal name only: {% from 'a' ~ 'b' import m %} is refused; no property speaks of it)
+	} {
+		for _, e := range exprs {
+			eng := twig.New()
+			eng.RegisterString("layouts/blue.twig", "<{% block a %}A0{% endblock %}>{% macro m() %}M{% endmacro %}")
+			src := strings.ReplaceAll(tag.tpl, "$", e)
+			c := Case{"stream": "c10-parent-name-spellings", "tag": tag.name, "expression": e, "tpl": src}
+			res.Hist["stream:c10-parent-name-spellings"]++
+			res.Evaluations++
+			res.count("c10-parent-name-spellings/"+tag.name+"/"+e, true)
+			want := tag.want
+			if tag.name == "import" || tag.name == "from" {
+				want = "[M]"
+			}
+			if err := eng.RegisterString("t", src); err != nil {
+				res.add(Finding{Kind: "oracle", Where: "c10-parent-name-spellings/" + tag.name, Case: c, Expected: want, Observed: "parse error: " + err.Error()})
+				continue
+			}
+			got, err := eng.Render("t", map[string]interface{}{"theme": "blue", "names": []interface{}{"layouts/blue.twig"}, "full": "layouts/blue.twig"})
+			if err != nil {
+				got = "error: " + err.Error()
+			}
+			if got != want {
+				res.add(Finding{Kind: "oracle", Where: "c10-parent-name-spellings/" + tag.name, Case: c, Expected: want, Observed: got,
+					Detail: "the expression names layouts/blue.twig; the tag did not reach that template"})
 			}
 		}
 	}
